@@ -95,7 +95,9 @@ func (g *FnGen) renderBodyOpt(upTo int, model bool, dropQuant bool) string {
 					fmt.Fprintf(&b, "(assert %s)\n", x)
 				}
 				fmt.Fprintf(&b, "(assert %s)\n(assert %s)\n(echo \"OB %d\")\n(check-sat)\n(pop 1)\n", it.Guard, not(it.Fact), i)
-				fmt.Fprintf(&b, "(assert %s)\n", implies(it.Guard, it.Fact))
+				if !noAssumeAfter[it.Ob.Kind] {
+					fmt.Fprintf(&b, "(assert %s)\n", implies(it.Guard, it.Fact))
+				}
 			} else if i == upTo {
 				for _, x := range it.Extras {
 					fmt.Fprintf(&b, "(assert %s)\n", x)
@@ -104,13 +106,19 @@ func (g *FnGen) renderBodyOpt(upTo int, model bool, dropQuant bool) string {
 				if model {
 					b.WriteString("(get-model)\n")
 				}
-			} else {
+			} else if !noAssumeAfter[it.Ob.Kind] {
 				fmt.Fprintf(&b, "(assert %s)\n", implies(it.Guard, it.Fact))
 			}
 		}
 	}
 	return b.String()
 }
+
+// Frame and lock-discipline obligations do not stop execution when they are violated, and their
+// condition is often the constant false under the path guard: assuming them afterwards would make
+// the rest of the path vacuous and mask later obligations (of other kinds, claimed by other
+// properties). They are therefore checked but never assumed.
+var noAssumeAfter = map[string]bool{"assigns": true, "shared-write": true}
 
 func (g *FnGen) singleScript(ob *Obligation, model bool) string {
 	return g.singleScriptOpt(ob, model, false)
